@@ -260,6 +260,7 @@ struct WaitRec {
   bool suspended = false;
   uint64_t serial0 = 0;
   uint64_t v_epoch0 = 0, v0 = 0;
+  bool v_quiet0 = false;  // no setv was in flight when the co_await began
   bool has_token = false;
   FCancel token;
   uint64_t bits = 0;
@@ -313,6 +314,7 @@ struct World {
   // A
   Futex futex;
   uint64_t cur_value = 0, value_epoch = 0;
+  int setters_inflight = 0;  // several threads may run setv at once: parity of the epoch alone is not enough
   std::vector<WaiterPlan> waiters;
   std::vector<CoSt> co;                         // A: one per waiter; B/C: 2 per outer (outer, inner)
   std::vector<babylon::Future<int>> futures;    // result futures of coroutines launched with execute()
@@ -375,7 +377,10 @@ int begin_wait(int idx, int k) {
   r.t_enter = w->now();
   r.serial0 = tl_serial;
   r.v_epoch0 = w->value_epoch;
-  r.v0 = w->cur_value;
+  r.v_quiet0 = w->setters_inflight == 0;
+  // the real word (plain read = latest in modification order): the harness copy `cur_value` can lag when two
+  // setv calls finish out of order
+  r.v0 = w->futex.value();
   r.gate_held = take;
   w->waits.push_back(r);
   int ri = (int)w->waits.size() - 1;
@@ -396,7 +401,7 @@ void release_gate_if_held(int ri) {
 
 void check_suspension_legal(WaitRec& r, const char* where) {
   // the value was not touched between the start of the co_await and now, and it differs
-  if ((r.v_epoch0 & 1) == 0 && W->value_epoch == r.v_epoch0 && r.v0 != r.expected)
+  if (r.v_quiet0 && W->setters_inflight == 0 && W->value_epoch == r.v_epoch0 && r.v0 != r.expected)
     dsched::fail("futex-nonmatching", "waiter %d wait %d: suspended (%s) although the futex value was %lu != expected %lu throughout",
                  r.waiter, r.k, where, (unsigned long)r.v0, (unsigned long)r.expected);
 }
@@ -417,10 +422,11 @@ struct FutexCb {
     WaitRec& r = w->waits[(size_t)ri];
     if (r.t_cb_begin != 0) dsched::fail("on-suspend", "waiter %d wait %d: on_suspend callback invoked twice", r.waiter, r.k);
     r.t_cb_begin = w->now();
-    if (r.t_resumed != 0)
-      dsched::fail("frame-lifetime",
-                   "waiter %d wait %d: on_suspend callback runs after the coroutine was already resumed from this wait "
-                   "(the awaitable lives in the resumed frame)", r.waiter, r.k);
+    // A waker may win the race against this callback: await_suspend keeps the callable in a local (repo fix
+    // "Futex::Awaitable touches itself after the waiter became visible"), so the callback object is alive (the
+    // canary above still guards that) but the coroutine may already run again. The listed property says nothing
+    // about when the callback runs relative to a racing wake, so this is only counted; the token is stale then.
+    if (r.t_resumed != 0) dsched::label("on_suspend_after_racing_resume");
     check_suspension_legal(r, "on_suspend called");
     r.has_token = true;
     r.token = token;
@@ -524,10 +530,12 @@ void do_wake(bool all) {
 
 void do_setv(uint64_t v) {
   World* w = W;
+  w->setters_inflight++;
   w->value_epoch++;
   w->futex.atomic_value().store(v, std::memory_order_seq_cst);
   w->cur_value = v;
   w->value_epoch++;
+  w->setters_inflight--;
 }
 
 void launch_A(int idx) {
